@@ -165,55 +165,6 @@ func clip(s string) string {
 	return s
 }
 
-const keyGatedDirArg = "F-13g-gated-directive-argument-type"
-
-// classifyDirArg — F-13g (= C10's F-10g seen from C13): the schema has a directive argument whose type
-// is hidden under F; the request selects `directives` or applies such a directive; the responses
-// differ; and the counterfactual holds: the same case with exactly those arguments deleted from the
-// directive definitions of S does not fail.
-func classifyDirArg(c *Case, what string) string {
-	if c.Spec == nil || c.Via != "" || !strings.HasPrefix(what, "response differs") {
-		return ""
-	}
-	hidden := gatedDirectiveArgs(c.Spec, fset(c.F))
-	if len(hidden) == 0 {
-		return ""
-	}
-	text := c.Query.Text
-	if c.Doc != nil {
-		text = c.Doc.text()
-	}
-	mentions := strings.Contains(text, "directives")
-	for _, h := range hidden {
-		if strings.Contains(text, "@"+h[:strings.IndexByte(h, '.')]) {
-			mentions = true
-		}
-	}
-	if !mentions {
-		return ""
-	}
-	cf := *c
-	cf.Spec = c.Spec.clone()
-	hid := map[string]bool{}
-	for _, h := range hidden {
-		hid[h] = true
-	}
-	for di := range cf.Spec.Directives {
-		d := &cf.Spec.Directives[di]
-		var keep []ArgSpec
-		for _, a := range d.Args {
-			if !hid[d.Name+"."+a.Name] {
-				keep = append(keep, a)
-			}
-		}
-		d.Args = keep
-	}
-	if failsSame(&cf) != "" {
-		return ""
-	}
-	return keyGatedDirArg
-}
-
 // classify attaches a finding key to a failing case (narrow predicates; "" = unknown failure).
 //
 // F-13f: the schema's mutation (or subscription) root type itself carries required features that F
@@ -222,10 +173,7 @@ func classifyDirArg(c *Case, what string) string {
 // holds: the very same case with the requirement taken off the root type (nothing else changed)
 // does not fail. A failure that survives the counterfactual is a different failure.
 func classify(c *Case, what string) string {
-	if k := classifyDirArg(c, what); k != "" {
-		return k
-	}
-	return ""
+	return "" // no open finding at present
 }
 
 func subsets(fs []string) [][]string {
@@ -817,20 +765,6 @@ func observableRC(model, real []string) []string {
 	return out
 }
 
-func probeDirArgsFix() bool {
-	spec := &Spec{Query: "Query", Directives: []DirSpec{{Name: "paint", Args: []ArgSpec{{"mode", "Mode"}, {"n", "Int"}}}},
-		Types: withBuiltins(
-			TypeSpec{Kind: "enum", Name: "Mode", Req: []string{"a"}, Values: []string{"X", "Y"}},
-			TypeSpec{Kind: "object", Name: "Query", Fields: []FieldSpec{{Name: "ok", Type: "Boolean"}}})}
-	w := &world{orig: expand(spec), F: map[string]bool{}}
-	b, err := buildSchema(spec, w)
-	if err != nil {
-		return false
-	}
-	o := runQuery(b, w, nil, &query{Kind: "probe", Text: "{ __schema { directives { name args { name } } } }"})
-	return strings.Contains(o.Resp, `"name":"n"`) && !strings.Contains(o.Resp, `"name":"mode"`)
-}
-
 // gatedRoots lists the mutation / subscription root types that carry required features F does not enable.
 func gatedRoots(spec *Spec, F []string) []string {
 	var out []string
@@ -1090,12 +1024,6 @@ func (h *harness) replayAPI(c *Case, verbose bool) string {
 func main() {
 	run := hx.Init("C13")
 	h := &harness{run: run, perClass: map[string]int{}}
-	dirArgsFixed = probeDirArgsFix()
-	if dirArgsFixed {
-		run.Count("library:gated-directive-arguments-hidden(fix-05)")
-	} else {
-		run.Count("library:gated-directive-arguments-visible(F-13g-open)")
-	}
 	if run.ModelPath != "" {
 		m, err := hx.StartModel(run.ModelPath)
 		if err != nil {
@@ -1104,9 +1032,6 @@ func main() {
 		}
 		h.model = m
 		defer m.Close()
-		if dirArgsFixed {
-			h.ask("(dirargs filtered)")
-		}
 	}
 	run.SetRule("cases are (schema S accepted by the real schema.New, request feature set F ⊆ features(S) [all subsets], query q) with q an introspection probe (full introspection query, __type(name:) for every type name incl. gated and non-existent ones, types listing, navigation probes through possibleTypes/interfaces) or a type-directed document over S (generated for all features, for F, or for another subset; fragments, type conditions incl. unrelated/gated/unknown types, arguments, variables, directives); distinct = distinct (schema, F, query text); non-trivial = erase(S,F) differs from S (F actually hides a type or a field)")
 
